@@ -2,6 +2,8 @@
 from .. import matrix
 from ..rules import sets, hint
 
+from ..rules import round5
+
 
 def run(tier, runner):
     pts = matrix.flatset_points(tier) + matrix.smallset_points(tier)
@@ -14,9 +16,11 @@ def run(tier, runner):
     r_s.require(10, 'FlatSet lookup members')
     r_h.require(1, 'insert_hint')
     r_l.require(5, 'inline-state lookups of SmallSet')
+    r_os = round5.one_scan(progs)
+    r_os.require(3, 'SmallSet members that scan the inline vector')
     return {
-        'results': [r_s, r_h, r_hf, r_l],
-        'explanation': 'SEARCH: each FlatSet lookup and position search (find, contains, count, lower/upper_bound, equal_range, transparent variants, mfind, '
+        'results': [r_s, r_h, r_hf, r_l, r_os],
+        'explanation': 'ONE-SCAN: every SmallSet operation scans the inline vector at most once per path.  SEARCH: each FlatSet lookup and position search (find, contains, count, lower/upper_bound, equal_range, transparent variants, mfind, '
                        'insert_val, erase(key), extract(key)) performs, on every path through it and its amc callees, exactly one std binary search, at most 2 '
                        'further direct comparator calls, no loop and no linear algorithm that receives the comparator; with the standard\'s bound for the '
                        'search algorithms (<= ceil(log2(n+1))+1 comparisons) this gives <= 2*ceil(log2(n+1))+4 for every n.  HINT-K: insert_hint is '
